@@ -963,7 +963,8 @@ package ircserver
 //@     invariant sess-l10: forall a int, b int {sessions[a], sessions[b]} :: 0 <= a && a < b && b < len(sessions) ==> snapId(sessions[a]) != snapId(sessions[b])
 //@   loop for mode < 'z'
 //@     invariant sess-l11: forall j int :: 0 <= j && j < len(modes) ==> len(modes[j]) > 0 && modes[j][0] < 122
-//@     invariant sess-l12: 65 <= mode && mode <= 122 && forall m int :: 0 <= m && m < 122 ==> ((exists j int :: 0 <= j && j < len(modes) && modes[j][0] == m) <==> (65 <= m && m < mode && session.modes[m]))
+//@     invariant sess-l12: 65 <= mode && mode <= 122 && (forall j int :: 0 <= j && j < len(modes) ==> 65 <= modes[j][0] && modes[j][0] < mode && session.modes[modes[j][0]])
+//@     invariant sess-l12b: forall m int :: 65 <= m && m < mode && session.modes[m] ==> (exists j int :: 0 <= j && j < len(modes) && modes[j][0] == m)
 //@     invariant sess-l13: id in i.sessions && session == i.sessions[id] && session != nil
 //@     invariant sess-l14: forall k int :: 0 <= k && k < len(sessions) ==> sessEntryOK(sessions[k], i) && snapId(sessions[k]) != id && seen(snapId(sessions[k]), "range i.sessions")
 //@     invariant sess-l15: forall x robust.Id :: seen(x, "range i.sessions") && x != id ==> (exists k int :: 0 <= k && k < len(sessions) && snapId(sessions[k]) == x)
@@ -1008,6 +1009,8 @@ package ircserver
 //@     invariant config-l43: 0 - 1 <= rangeindex && rangeindex < len(i.Config.IRC.Services) && len(services) == rangeindex + 1 && (forall k int :: 0 <= k && k < len(services) ==> services[k] != nil && allocated(services[k]) && services[k].Password == i.Config.IRC.Services[k].Password)
 //@   assert@call proto.Marshal#0 : sess-same: sameslice(snapshot.Sessions, sessions)
 //@   assert@call proto.Marshal#0 : sess-sessions-complete: forall x robust.Id :: x in i.sessions ==> (exists k int :: 0 <= k && k < len(sessions) && snapId(sessions[k]) == x)
+//@   assert@call proto.Marshal#0 : sess-sessions-shape: forall k int :: 0 <= k && k < len(sessions) ==> sessions[k] != nil && allocated(sessions[k]) && sessions[k].Id != nil && sessions[k].IrcPrefix != nil && modesOK(sessions[k])
+//@   assert@call proto.Marshal#0 : sess-sessions-distinct: forall a int, b int {sessions[a], sessions[b]} :: 0 <= a && a < b && b < len(sessions) ==> snapId(sessions[a]) != snapId(sessions[b])
 //@   assert@call proto.Marshal#0 : sess-sessions: wfSnapSessions(addrof(snapshot))
 //@   assert@call proto.Marshal#0 : sessnicks: wfSnapNicks(addrof(snapshot))
 //@   assert@call proto.Marshal#0 : sess-sessions-repr: forall k int :: 0 <= k && k < len(sessions) ==> sessEntryOK(sessions[k], i)
